@@ -524,6 +524,7 @@ PROPS = {
                   lambda prog, tier: idxclass.run(prog, scope_units=("lib_mpq.c", "qsopt_mpq.c"), rule="R-IDXCLASS"),
                   lambda prog, tier: scratch.run(prog), lambda prog, tier: scratch.run_delay(prog), lambda prog, tier: scratch.run_pair(prog),
                   lambda prog, tier: staleptr.run(prog, shared_eff(prog)),
+                  lambda prog, tier: inval.run_fok(prog, shared_eff(prog)),
                   lambda prog, tier: escape.run_extcopy(prog)],
         "technique": "value-class (zero / non-zero / unknown) fixpoint over GMP-number locations with interprocedural parameter binding and "
                      "dead-write elimination on the CFG; per-iteration must-pass analysis of the scratch-mark clearing loops",
@@ -766,7 +767,7 @@ _ADD = {
                            "structure the next solve relies on. (R-MARKPAIR) every function that sets scratch marks clears them on every path to its return "
                            "(early exits included). (R-STALEPTR) no local copy of a re-allocatable array pointer of the factorisation "
                            "(urcoef, urindx, ucindx, lcindx ...) is used after a call that may grow the array, unless it was fetched again. (R-EXTORDER(copy)) elements of a work vector in internal column order (tableau row, "
-                           "solution vectors) reach the caller's arrays only through structmap[] / rowmap[].",
+                           "solution vectors) reach the caller's arrays only through structmap[] / rowmap[]. (R-FOK) every public call that may write entries of the constraint matrix resets factorok on every success path: a factorization kept across such an edit is the inverse of another matrix, and the binv / tableau rows answered from it do not satisfy B^-1 B = I.",
             "level_text": " R-SCRATCH adds the structural clause that marks and topological counters are value-independent (two seeded LU / tableau "
                           "defects are reported by it)."},
     "C14": {"technique": "; exit-condition analysis of the record-emitting loops of the basis writer",
